@@ -101,11 +101,8 @@ func (xaManager *XAResourceManager) xaTwoPhaseTimeoutChecker() {
 						return true
 					}
 
-					if connectionXA.xaActive {
-						// still in phase one, not waiting for phase two
-						return true
-					}
-					if time.Now().Sub(connectionXA.prepareTime) > xaManager.config.TwoPhaseHoldTime {
+					// a connection still in phase one is not waiting for phase two
+					if connectionXA.holdState.expired(xaManager.config.TwoPhaseHoldTime) {
 						if err := connectionXA.CloseForce(); err != nil {
 							log.Errorf("Force close the xa xid:%s physical connection fail", connectionXA.txCtx.XID)
 						}
